@@ -741,6 +741,13 @@ def regenerate():
     except Exception as e:  # noqa
         res['errors'].append(f"Flow: {type(e).__name__}: {e}")
     try:
+        import group_gen
+        txt, errs = group_gen.gen_group()
+        res['errors'] += [f"GroupLoop: {x}" for x in errs]
+        if write_if_changed(os.path.join(GEN, 'GroupLoop.lean'), txt): res['changed'].append('GroupLoop.lean')
+    except Exception as e:  # noqa
+        res['errors'].append(f"GroupLoop: {type(e).__name__}: {e}")
+    try:
         import stackast_gen
         txt, errs = stackast_gen.gen_stackast()
         res['errors'] += [f"StackAst: {x}" for x in errs]
